@@ -96,7 +96,7 @@ def harnesses(tier, seed):
                             bucket.append(h(ty, target, "slice", n, 2, 1, owners, counts, 1, 8))
                         bucket.append(h(ty, target, "iterf", n, 2, 1, None, counts, 1, 8))
                         bucket.append(h(ty, target, "slice", n, 1, 1, None, counts, 2, 2))
-        hs = cap(light, 600, seed) + cap(heavy, 40, seed)
+        hs = cap(light, 300, seed) + cap(heavy, 24, seed)
     seen = set()
     hs = [h for h in hs if not (h.name in seen or seen.add(h.name))]
     return hs
